@@ -89,7 +89,7 @@ func scenQRY(s *sched.Sim, cfg Config, res *Result) {
 	m := s.T.Range(1, maxM)
 	withFiles := s.T.Bool(1, 5)
 	nFaults := []int{0, 0, 0, 1, 1, 2}[s.T.Choose(6)]
-	kinds := []string{"ErrBefore", "ErrAfter", "Status", "ReadErr", "not-json", "element-errors", "not-array", "Cancelled", "DeadlineExceeded"}
+	kinds := []string{"ErrBefore", "ErrAfter", "Status", "ReadErr", "not-json", "element-errors", "not-array", "Cancelled", "DeadlineExceeded", "element-no-data", "ReadErrEnd", "answer-twice"}
 	type fplan struct {
 		ordinal int
 		kind    string
@@ -144,6 +144,26 @@ func scenQRY(s *sched.Sim, cfg Config, res *Result) {
 					return &simnet.Fault{Kind: "ReadErr", At: 3}
 				case "not-json":
 					return &simnet.Fault{Kind: "not-json", Mutate: func([]byte) []byte { return []byte("<html>oops</html>") }}
+				case "ReadErrEnd":
+					// the connection is lost after the complete answer, before the announced length
+					return &simnet.Fault{Kind: "ReadErr", At: 1 << 30}
+				case "answer-twice":
+					return &simnet.Fault{Kind: "answer-twice", Mutate: func(b []byte) []byte { return append(append([]byte{}, b...), b...) }}
+				case "element-no-data":
+					// one element with neither data nor errors
+					return &simnet.Fault{Kind: "element-no-data", Mutate: func(b []byte) []byte {
+						if len(b) > 0 && b[0] == '{' {
+							return []byte(`{"data":null}`)
+						}
+						var arr []map[string]any
+						json.Unmarshal(b, &arr)
+						if len(arr) == 0 {
+							return b
+						}
+						arr[len(arr)/2] = map[string]any{"data": nil}
+						nb, _ := json.Marshal(arr)
+						return nb
+					}}
 				case "not-array":
 					return &simnet.Fault{Kind: "not-array", Mutate: func(b []byte) []byte {
 						if len(b) > 0 && b[0] == '{' {
